@@ -25,6 +25,7 @@ package primary
 //@   pure
 //@   ensures wfkey(bytes(key)) ==> err == nil
 //@   ensures len(key) == 0 ==> err != nil
+//@   ensures err != types.ErrKeyExists
 //@   ensures err == nil ==> bytes(ik) == ikey(bytes(key)) && ik != nil
 
 //@ func (p PrimaryStorage) Get(blk types.Block) (key []byte, value []byte, err error)
@@ -32,6 +33,7 @@ package primary
 //@   ensures err == nil && key != nil ==> p.$Rin[keyof(blk)] && bytes(key) == p.$Rkey[keyof(blk)] && bytes(value) == p.$Rval[keyof(blk)]
 //@   ensures p.$Rin[keyof(blk)] ==> err == nil && key != nil
 //@   ensures err != nil ==> key == nil && value == nil
+//@   ensures err != types.ErrKeyExists
 
 //@ func (p PrimaryStorage) GetIndexKey(blk types.Block) (ik []byte, err error)
 //@   trusted interface contract (GAP-2)
@@ -43,6 +45,7 @@ package primary
 //@   modifies p.$Rin, p.$Rkey, p.$Rval, p.$Rused
 //@   ensures err == nil ==> !old(p.$Rused)[keyof(blk)] && p.$Rused == old(p.$Rused)[keyof(blk) := true]
 //@   ensures err != nil ==> p.$Rused == old(p.$Rused)
+//@   ensures err != types.ErrKeyExists
 //@   ensures err == nil && len(key) + len(value) < (1 << 31) ==> blk.Size == len(key) + len(value)
 //@   ensures err == nil ==> p.$Rin == old(p.$Rin)[keyof(blk) := true] && p.$Rkey == old(p.$Rkey)[keyof(blk) := bytes(key)] && p.$Rval == old(p.$Rval)[keyof(blk) := bytes(value)]
 //@   ensures err != nil ==> p.$Rin == old(p.$Rin) && p.$Rkey == old(p.$Rkey) && p.$Rval == old(p.$Rval)
